@@ -104,3 +104,37 @@ check("C01", "PVM",
       floors={"any": {"compiler_distinct_opcodes": 130, "compiler_exit_halt": 100, "compiler_exit_host-call": 100, "compiler_exit_out-of-gas": 100, "compiler_exit_page-fault": 100, "compiler_exit_panic": 100,
                       "dispatch_known": 1000, "dispatch_unknown": 1000, "dispatch_id_ge_256": 1000, "grid_model_steps": 100000}},
       exhaustive="thorough tier: the complete operand grid 256 x 12 x 12 x 25 x 3")
+
+check("C02", "PVM",
+      rule="case = the C01 corpus (compiler-like programs, operand grid, hostile programs; same generators and seeds) executed from identical deep-copied state by SingleStepInvokeDecodedBlocks (block engine) and SingleStepInvoke (step engine), segment by segment with identical register/gas edits at host calls; "
+           "compared: exit kind, gas, registers (not after panic), host-call id, fault address, next pc (normalised: the step engine reports the ecalli pc, the block engine the fall-through pc), every page. refpvm only labels which side deviates and excludes the cases it does not judge. distinct_nontrivial = distinct cases",
+      technique="differential monitor (block engine vs step engine in lock-step across host calls; refpvm only labels the deviating side)",
+      level_text="Each engine is the other's oracle on every generated program and state, including resumption after host calls; the operand grid is complete in the thorough tier. Held = no difference on what was explored.",
+      note=PVM_NOTE, shards=(8, 16), floors={"any": {"compared_compiler": 10000, "compared_grid": 100000, "compared_hostile": 30000}},
+      exhaustive="thorough tier: the complete operand grid 256 x 12 x 12 x 25 x 3")
+
+check("C04", "PVM",
+      rule="part A: compiler-like programs run by the block engine with EVERY gas limit g in 0..S+1 (S = model steps to termination, 300 for looping programs) and compared with refpvm run with the same g (exit, remaining gas, registers, memory, pc); "
+           "part B: Psi_M on standard programs (random o/w/z/s, argument) with limits {4 random < 150} + 2 of {2^31, 2^32, 2^62, 2^63-1, 2^63, 2^63+1, 2^64-1} and recording omegas charging 10: reported gas used must be within [0, limit], equal limit - max(remaining,0) of the model, result kind equal. "
+           "Host-call charges of the real omegas are monitored in C07's omega wrapper (gas -10, transfer -10-l). distinct_nontrivial = distinct programs with >= 2 steps + distinct (program, wrapper) pairs",
+      technique="reference-model monitor at every gas limit 0..S+1 (gas-stepping) + invocation-result monitor for Psi_M with limits up to 2^64-1",
+      level_text="Every prefix of every generated execution is checked by running it with each smaller gas limit; reported usage is checked up to the largest representable limit. Held = no divergence on what was explored.",
+      note=PVM_NOTE, shards=(8, 16), floors={"any": {"limit_runs": 50000, "oog_strictly_inside": 20000, "psim_runs": 8000, "psim_limits_ge_2^63": 500}})
+
+check("C05", "PVM",
+      rule="part A: straight-line programs of loads/stores of every width and addressing form (direct, immediate, indirect, immediate-indirect) aimed at +-10 bytes around the edges of read-write, read-only and unmapped pages, 2^16 and the top of the address space; the block engine is run with gas 0,1,2,... and every pair of consecutive states is checked against a shadow page map: "
+           "an access that is not permitted (or touches < 2^16) must not complete, must panic (< 2^16) or page-fault, and must leave registers and memory unchanged; a permitted access must complete with exactly the expected register / byte changes; any other opcode must leave memory unchanged. "
+           "part B: sbrk sequences on SingleInitializer-built memory (increments 0, 1, page+-1, small, just beyond the limit, 2^32, 2^64-1): only sbrk adds pages, new pages are zero, read-write, inside [old heap pointer page, new heap pointer page] and below the stack boundary, existing pages untouched, a granted range is writable, a refused request maps nothing. distinct_nontrivial = distinct programs",
+      technique="invariant monitor on consecutive machine states obtained by gas-stepping (shadow page map frame conditions for loads, stores, sbrk and all other opcodes)",
+      level_text="Frame conditions derived from the page map alone are asserted on every executed instruction of generated memory-heavy programs. Held = no violated invariant on what was explored.",
+      note="Operands are decoded with refpvm.Decode (independent of refpvm.Step). Present-but-inaccessible pages are not generated: no reachable constructor produces them today (the pages host call never leaves one). A growth up to the limit itself (~4 GiB of pages) is not explored. Accesses wrapping past 2^32 are not judged (U14).",
+      shards=(8, 16), floors={"any": {"loads_completed": 3000, "stores_completed": 5000, "faulting_accesses_load": 1000, "faulting_accesses_store": 3000, "cross_page_accesses_completed": 50, "sbrk_grown": 2000, "sbrk_refused": 2000}})
+
+check("C03", "PVM",
+      rule="case = one untrusted byte string derived from a valid program (compiler-like / hostile blob, standard-program wrapper) by one or two of {none, truncation, bit flips, natural-number field := boundary value, 32-bit length field := boundary value, random bytes, garbage suffix, byte := 00/FF}, plus EVERY truncation of a few valid blobs, "
+           "fed to DeBlobProgramCode, SingleInitializer, Psi_M, Psi_A (code as service preimage, with and without metadata prefix), RefineInvoke (code through historical lookup) and machine+invoke (blob in guest memory), gas <= 10^4. Input is logged to disk before each call; monitors: recover()/process death, TotalAlloc delta <= 64 MiB + 8 x (len + sizes the blob declares), return within 60 s. distinct_nontrivial = distinct (target, bytes)",
+      technique="crash / allocation / progress monitors over mutated program blobs in isolated child processes (input logged before every call)",
+      level_text="Every call on untrusted bytes is watched for Go panics, process death, allocation beyond the declared bound and non-termination; held = none observed on what was explored (open finding C03-F2 is re-confirmed by a dedicated trigger case).",
+      note="The 60 s bound is the only wall-clock verdict (10^4 instructions take microseconds). Psi_I is not driven (fixed 50M gas). Go native fuzzing is not used (unseedable); the structured generator is seeded by VERIF_SEED.",
+      shards=(8, 16), floors={"any": {"calls_DeBlobProgramCode": 3000, "calls_Psi_M": 3000, "calls_Psi_A": 3000, "calls_RefineInvoke": 3000, "calls_machine+invoke": 3000, "calls_SingleInitializer": 3000}},
+      timeout=(1200, 7200))
